@@ -1,5 +1,6 @@
 """C05 - each iterator visits every node of the subtree exactly once in its defined order."""
 import itertools
+import sys
 
 from hypothesis import strategies as st
 
@@ -83,7 +84,7 @@ def check_case(case, acc):
 
 
 def _ids(item):
-    return tuple(id(n) for n in item) if isinstance(item, tuple) else id(item)
+    return tuple(id(n) for n in item) if type(item) is tuple else id(item)  # groups are plain tuples; a node may be a tuple subclass
 
 
 def consume(it, mode, k):
@@ -148,20 +149,33 @@ def _once(case, acc, tree, labels):
         stale = cls(start)
         next(stale, None)
         next(stale, None)
-    inter_a, inter_b = PostOrderIter(start), PostOrderIter(tree[0])
-    mixed = []
-    for _ in range(3):
-        mixed.append(next(inter_a, None))
-        next(inter_b, None)
-    if not refs.same_seq([n for n in mixed if n is not None], post[:3]):
-        raise Violation("interleaved-iteration", "PostOrderIter advanced alternately with another PostOrderIter yields %s, expected %s" % (lab([n for n in mixed if n is not None]), lab(post[:3])))
+    wants = {PreOrderIter: pre, PostOrderIter: post, LevelOrderIter: level, LevelOrderGroupIter: [tuple(g) for g in lvls], ZigZagGroupIter: [tuple(g) for g in refs.zigzag(lvls)]}
+    for cls, want in wants.items():
+        # two iterator objects of the same class alive at the same time, advanced alternately ...
+        inter_a, inter_b = cls(start), cls(tree[0])
+        mixed = []
+        for _ in range(len(want) + 1):
+            item = next(inter_a, None)
+            if item is not None:
+                mixed.append(item)
+            next(inter_b, None)
+        if [_ids(x) for x in mixed] != [_ids(x) for x in want]:
+            raise Violation("interleaved-iteration", "%s advanced alternately with another %s yields %d items, expected %d" % (cls.__name__, cls.__name__, len(mixed), len(want)))
+        # ... and nested: a complete inner iteration for every item of the outer one
+        outer = []
+        for item in cls(start):
+            outer.append(item)
+            inner_start = item[0] if type(item) is tuple else item
+            sum(1 for _ in cls(inner_start))
+        if [_ids(x) for x in outer] != [_ids(x) for x in want]:
+            raise Violation("interleaved-iteration", "%s with a nested %s over every item's subtree yields %d items, expected %d" % (cls.__name__, cls.__name__, len(outer), len(want)))
     # an iterator object may be used in portions (a loop left early, islice, zip, next()): together the portions are the full sequence
     zz_ref = refs.zigzag(lvls)
     for cls, want in ((PreOrderIter, pre), (PostOrderIter, post), (LevelOrderIter, level), (LevelOrderGroupIter, [tuple(g) for g in lvls]), (ZigZagGroupIter, [tuple(g) for g in zz_ref])):
         for mode, k in case.get("portions") or [[CONSUME_MODES[(len(pre) + j) % len(CONSUME_MODES)], 1 + (len(pre) * (j + 1)) // 3] for j in range(2)]:
             got = consume(cls(start), mode, k)
             if [_ids(x) for x in got] != [_ids(x) for x in want]:
-                raise Violation("resumed-iteration", "%s used in two portions (%s, first %d): got %d items %r, expected %d" % (cls.__name__, mode, k, len(got), [lab(x) if isinstance(x, tuple) else labels.label(x) for x in got], len(want)))
+                raise Violation("resumed-iteration", "%s used in two portions (%s, first %d): got %d items %r, expected %d" % (cls.__name__, mode, k, len(got), [lab(x) if type(x) is tuple else labels.label(x) for x in got], len(want)))
     got_pre = list(PreOrderIter(start))
     if not refs.same_seq(got_pre, pre):
         raise Violation("preorder", "expected %s got %s" % (lab(pre), lab(got_pre)))
@@ -237,7 +251,7 @@ def plan(tier, seed):
     examples = 300 if tier == "quick" else 5000
     tasks = [{"engine": "enum", "max_nodes": max_nodes, "index": i, "count": nshards} for i in range(nshards)]
     tasks += [{"engine": "hyp", "examples": examples, "seed": seed * 1000 + i} for i in range(nshards)]
-    tasks += [{"engine": "deep", "depth": d, "cls": c} for d in ((270,) if tier == "quick" else (130, 270, 400)) for c in ("Node", "SlotLM")]
+    tasks += [{"engine": "deep", "depth": d, "cls": c} for d in ((270, int(0.6 * sys.getrecursionlimit())) if tier == "quick" else (130, 270, 400, int(0.6 * sys.getrecursionlimit()), int(0.75 * sys.getrecursionlimit()))) for c in ("Node", "SlotLM")]
     tasks += [{"engine": "very-deep", "cls": c} for c in ("Node", "SlotLM")]
     return tasks
 
